@@ -41,7 +41,7 @@ func split(ctx context.Context, r io.Reader) (<-chan string, <-chan error) {
 			}
 		}
 		if err := sc.Err(); err != nil {
-			errc <- err
+			sendErr(ctx, errc, err)
 			return
 		}
 		select {
